@@ -453,6 +453,51 @@ pub fn f64_digit_estimate(bits: u64) -> (ret: u64)
     ensures ret <= bits, pow10(ret as int) <= pow2i(bits as int)
 { unimplemented!() }
 
+/// R6f / float axiom A2: `(LOG2_10 * scale as f64) as u64` never over-estimates log2(10^scale): 2^ret <= 10^scale.
+/// Kani checks this bit-precisely for scale < 2^16 (harness a2_log2_scale).
+#[verifier::external_body]
+pub struct F64Log2Scale { v: f64 }
+pub uninterp spec fn f64_log2_scale_val(x: F64Log2Scale) -> u64;
+impl F64Log2Scale {
+    #[verifier::external_body]
+    pub fn new(scale: u64) -> (ret: F64Log2Scale)
+        ensures pow2i(f64_log2_scale_val(ret) as int) <= pow10(scale as int)
+    { unimplemented!() }
+    #[verifier::external_body]
+    pub fn as_u64(self) -> (ret: u64) ensures ret == f64_log2_scale_val(self) { unimplemented!() }
+}
+
+/// R6: `<vec>.iter().rev()` used with explicit `.next()` calls and a final `.all(Zero::is_zero)`.
+/// Stand-in for core::iter::Rev<slice::Iter<u8>> with explicit (non-prophetic) ghost state: the digits and the
+/// number of items already yielded.  Assumed semantics of std: items come from the last element to the first.
+/// (vstd's prophetic iterator specs lost their facts at loop entry in this function; see DESIGN.md.)
+#[verifier::external_body]
+pub struct RevDigits<'a> { it: core::iter::Rev<core::slice::Iter<'a, u8>> }
+impl<'a> RevDigits<'a> {
+    pub uninterp spec fn digits(&self) -> Seq<u8>;
+    pub uninterp spec fn pos(&self) -> int;
+    #[verifier::external_body]
+    pub fn new(v: &'a Vec<u8>) -> (ret: RevDigits<'a>)
+        ensures ret.digits() == v@, ret.pos() == 0
+    { unimplemented!() }
+    #[verifier::external_body]
+    pub fn next(&mut self) -> (ret: Option<&'a u8>)
+        ensures final(self).digits() == old(self).digits(),
+                0 <= old(self).pos() <= old(self).digits().len(),
+                old(self).pos() < old(self).digits().len() ==> ret.is_some() && *ret.unwrap() == old(self).digits()[old(self).digits().len() - 1 - old(self).pos()] && final(self).pos() == old(self).pos() + 1,
+                old(self).pos() >= old(self).digits().len() ==> ret.is_none() && final(self).pos() == old(self).pos()
+    { unimplemented!() }
+    /// `it.all(Zero::is_zero)`: every item not yet yielded is zero
+    #[verifier::external_body]
+    pub fn all_zero(&mut self) -> (ret: bool)
+        ensures ret == (forall|j: int| 0 <= j < old(self).digits().len() - old(self).pos() ==> #[trigger] old(self).digits()[j] == 0)
+    { unimplemented!() }
+}
+
+/// size assumption in bit form: |n| < 2^(2^60)
+#[verifier::external_body]
+pub proof fn lemma_size_bits(n: &BigUint) ensures (n@ as int) < pow2i(0x1000_0000_0000_0000) {}
+
 // ------------------------------------------------------------------ std
 pub assume_specification<T> [<[T]>::split_last] (s: &[T]) -> (ret: Option<(&T, &[T])>)
     ensures match ret { None => s@.len() == 0, Some((l, rest)) => s@.len() > 0 && *l == s@.last() && rest@ == s@.drop_last() };
@@ -470,6 +515,9 @@ pub assume_specification<T, U> [Option::<T>::zip] (a: Option<T>, b: Option<U>) -
 pub assume_specification<T, F: FnOnce(T) -> bool> [Option::<T>::is_some_and] (o: Option<T>, f: F) -> (ret: bool)
     requires o.is_some() ==> f.requires((o.unwrap(),))
     ensures o.is_none() ==> !ret, o.is_some() ==> f.ensures((o.unwrap(),), ret);
+
+pub assume_specification [<Ordering as PartialEq>::eq] (a: &Ordering, b: &Ordering) -> (ret: bool)
+    ensures ret == (*a == *b);
 
 pub assume_specification [core::cmp::Ordering::reverse] (o: Ordering) -> (ret: Ordering)
     ensures ret == (match o { Ordering::Less => Ordering::Greater, Ordering::Equal => Ordering::Equal, Ordering::Greater => Ordering::Less });
